@@ -146,6 +146,16 @@ def sub(s, start, n):
     return s[start:start + n]
 
 
+def split_count(s, sep, maxsplit):
+    """len(s.split(sep, maxsplit)) - in VCs the function symbol the model of split() forks on"""
+    return len(s.split(sep, maxsplit))
+
+
+def split_part(s, sep, maxsplit, i):
+    """s.split(sep, maxsplit)[i] - in VCs the function symbol the model of split() returns"""
+    return s.split(sep, maxsplit)[i]
+
+
 def forall(lo, hi, pred):
     """for all integers j with lo <= j < hi: pred(j).  Executable natively; a quantifier in VCs."""
     return all(pred(j) for j in range(lo, hi))
